@@ -127,7 +127,7 @@ def floors(tier):
     q = tier == "quick"
     s = 1 if q else 10
     return {
-        "monitors": {"obstime_formats.conserved": 25000 * s, "csv.roundtrip": 6000 * s, "gpx.roundtrip": 1200 * s,
+        "monitors": {"obstime_formats.conserved": 25000 * s, "csv.roundtrip": 6000 * s, "gpx.roundtrip": 1200 * s, "gpx.per_track_files": 200 * s,
                      "net.roundtrip": 1000 * s, "wkt.roundtrip": 900 * s, "coord.within_written_precision": 90000 * s,
                      "timestamp.same_second": 25000 * s},
         "classes": {"csv": 5000, "gpx": 1200, "net": 1000, "wkt": 900, "sequence": 1000,
@@ -343,6 +343,7 @@ def gen_gpx_step(rng, srid=None, zero_z_enu=False):
                              (srid == "ENU" and rng.random() < 0.25)) for _ in range(ntr)]
     return {"kind": "gpx", "srid": srid, "tracks": tracks,
             "rapi": rng.choice(["readFromGpx", "readFromFile"]),
+            "one_file": rng.random() >= 0.3,
             "print_fmt": rng.choice([f for f, _, _ in TIME_FMTS])}
 
 
@@ -668,6 +669,9 @@ def step_gpx(st, ctx, work, si):
             obj = TrackCollection()
             for t in tracks:
                 obj.addTrack(t)
+        if not st.get("one_file", True):
+            # one file per track, named <tid>.gpx, written into a directory
+            return _step_gpx_per_track(st, ctx, work, si, tracks, exps)
         w = M.call(TrackWriter.writeToGpx, obj, path, False, True)
         if M.is_raised(w):
             if w.type in REJECTIONS:
@@ -694,6 +698,42 @@ def step_gpx(st, ctx, work, si):
         return mm
     finally:
         _rm(path)
+
+
+def _step_gpx_per_track(st, ctx, work, si, tracks, exps):
+    import shutil
+    from tracklib.io.track_writer import TrackWriter
+    from tracklib.io.track_reader import TrackReader
+    from tracklib.core.track_collection import TrackCollection
+    d = os.path.join(work, "c13_%d_%d_gpxdir" % (os.getpid(), si))
+    os.makedirs(d, exist_ok=True)
+    ctx.monitor("gpx.per_track_files")
+    try:
+        obj = TrackCollection()
+        for k, t in enumerate(tracks):
+            t.tid = 100 + k
+            obj.addTrack(t)
+        w = M.call(TrackWriter.writeToGpx, obj, d, False, False)
+        if M.is_raised(w):
+            if w.type in REJECTIONS:
+                raise _Ood("writer rejects the configuration: " + w.type)
+            return [_raised_mm(si, "writeToGpx(oneFile=False)", w)]
+        mm = []
+        for k in range(len(tracks)):
+            fp = os.path.join(d, "%d.gpx" % (100 + k))
+            if not os.path.exists(fp):
+                return [{"step": si, "tag": "file_missing", "expected": fp, "got": sorted(os.listdir(d))}]
+            r = M.call(TrackReader.readFromGpx, fp, st["srid"], "trk")
+            if M.is_raised(r):
+                return [_raised_mm(si, "readFromGpx", r, {"file_head": _file_head(fp)})]
+            n = M.call(lambda: r.size())
+            if M.is_raised(n) or n != 1:
+                return [{"step": si, "tag": "track_count", "expected": 1, "got": n, "file_head": _file_head(fp)}]
+            got = _truth(r.getTrack(0))
+            mm.extend(_compare_track(exps[k], got, _tols(st["srid"]), "xyzt", ctx, si, k))
+        return mm
+    finally:
+        shutil.rmtree(d, ignore_errors=True)
 
 
 def _coords_cls(srid):
